@@ -47,6 +47,16 @@ Theorem C02_literals_instance : forall l,
   /\ lit_into_view l = lw_into_view lit_display l.
 Proof. exact literal_tokens_instance. Qed.
 
+(** components carrying attributes (values are opaque strings): for every printing function of attribute values used
+    by BOTH back-ends, view, string and display render the same `<tag name="value" ..>children</tag>` *)
+Theorem C02_attrs_agree : forall (show_attr : str -> str) vars comps v,
+  let e := env_with_attrs show_attr vars comps in
+  eval_view e (gen_view v) = render e (pieces v)
+  /\ eval_string e (gen_string v) = render e (pieces v)
+  /\ eval_display e (gen_display v) = render e (pieces v)
+  /\ (forall k, e_open e k = open_tag show_attr (fst (comps k)) (snd (comps k))).
+Proof. exact attrs_agree. Qed.
+
 (** scoping changes neither the locale read nor the value reached: keys (scope ctx p) . q = keys ctx . (p ++ q) *)
 Theorem C02_scope_transparent : forall (L A : Type) (trees : L -> ktree A) (c : scoped L) (p q : list str),
   sc_locale (scope c p) = sc_locale c
